@@ -65,3 +65,43 @@ Theorem C06_nothing_is_written_after_finalization : forall m ops,
   w_finalized (m_writer m) = true -> sink_of (fst (run m ops)) = sink_of m.
 Proof. exact nothing_is_written_after_finalization. Qed.
 Print Assumptions C06_nothing_is_written_after_finalization.
+
+From Muxide Require Export Model.Api Spec.Checks Proofs.EndToEndProofs Proofs.StatsEndToEndProofs Proofs.F64Accuracy.
+Open Scope N_scope.
+(* binary64 fact (Flocq; depends on the standard library's classical real-number axioms, listed by
+   Print Assumptions below and allowlisted by name for this theorem and the next two only): dividing a
+   tick count below 2^51 by 90000.0 and multiplying back recovers it exactly *)
+Theorem C06_duration_roundtrip : forall n : N, n < 2251799813685248 -> tick (fdiv (of_N n) f_90000) = n.
+Proof. exact duration_roundtrip_holds. Qed.
+Print Assumptions C06_duration_roundtrip.
+
+(* WHOLE HISTORIES, fault-free sink: nothing is written before finish, the file is written once, every
+   later call is rejected and writes nothing, and the statistics equal the accepted frame counts, the
+   delivered byte count and (within one tick) the largest presentation end, provided that end is below
+   2^51 ticks (793 years; beyond that a binary64 number of seconds cannot resolve one tick: see
+   C06_duration_clause_unsatisfiable_beyond_2p51_refuted) *)
+Theorem C06_history_accounts_for_everything : forall b m0 ops m rs,
+  build b [] = inl m0 -> run m0 ops = (m, rs) ->
+  Forall op_payload_ok ops ->
+  len (sink_of m) < 18446744073709551616 ->
+  (first_stats rs <> None -> expected_max_end (accepted b ops (map class_of rs)) < 2251799813685248) ->
+  check_C06 b ops (map class_of rs) (run_lens m0 ops) (first_stats rs) true = true.
+Proof. exact (history_accounts_for_everything_variant duration_roundtrip_holds). Qed.
+Print Assumptions C06_history_accounts_for_everything.
+
+(* the same for ANY sink script (the byte-count clause then belongs to C13) *)
+Theorem C06_history_accounts_for_everything_any_sink : forall b script m0 ops m rs,
+  build b script = inl m0 -> run m0 ops = (m, rs) ->
+  Forall op_payload_ok ops ->
+  (first_stats rs <> None -> expected_max_end (accepted b ops (map class_of rs)) < 2251799813685248) ->
+  check_C06 b ops (map class_of rs) (run_lens m0 ops) (first_stats rs) false = true.
+Proof. exact (history_accounts_for_everything_any_sink duration_roundtrip_holds). Qed.
+Print Assumptions C06_history_accounts_for_everything_any_sink.
+
+Theorem C06_duration_clause_unsatisfiable_beyond_2p51_refuted :
+  exists b m0 ops m rs,
+    build b [] = inl m0 /\ run m0 ops = (m, rs) /\ Forall op_payload_ok ops /\
+    (forall p, ~ In (RPanic p) rs) /\ len (sink_of m) < 4294967296 /\
+    check_C06 b ops (map class_of rs) (run_lens m0 ops) (first_stats rs) true = false.
+Proof. exact original_statement_fails_beyond_2p51. Qed.
+Print Assumptions C06_duration_clause_unsatisfiable_beyond_2p51_refuted.
